@@ -65,21 +65,23 @@ Definition mutate_f (o : expr) (op : mutop) (s : st) : M (value * st) :=
   | _ => ErrM TypeMis
   end.
 
-Fixpoint interp_go (s : st) (segs : list seg) : M (list Z) :=
+Definition interp_go (s : st) : list seg -> M (list Z) :=
+  fix go (segs : list seg) : M (list Z) :=
   match segs with
   | [] => OkM []
-  | SegLit b :: r => do rest <- interp_go s r; OkM (b ++ rest)
+  | SegLit b :: r => do rest <- go r; OkM (b ++ rest)
   | SegVar vn vl :: r =>
       match lookup_env vl vn (env s) with
       | None => PanicM PSegVar
-      | Some v => do rest <- interp_go s r; OkM (display v ++ rest)
+      | Some v => do rest <- go r; OkM (display v ++ rest)
       end
   end.
 
-Fixpoint mk_params (fd : fdef) (ps : list name) (vs : list value) (k : Z) (acc : list slot) : list slot :=
+Definition mk_params (fd : fdef) : list name -> list value -> Z -> list slot -> list slot :=
+  fix mk (ps : list name) (vs : list value) (k : Z) (acc : list slot) : list slot :=
   match ps, vs with
   | p :: ps', v :: vs' =>
-      mk_params fd ps' vs' (k + 1)
+      mk ps' vs' (k + 1)
          ({| s_id := match f_id fd with Some _ => Some (f_lstart fd + k) | None => None end;
              s_name := p; s_val := v |} :: acc)
   | _, _ => acc
@@ -377,9 +379,7 @@ Proof. reflexivity. Qed.
 Lemma eval_S P eps n e s :
   eval P eps (S n) e s = eval_body eps (eval P eps n) (exec_block P eps n) e s.
 Proof.
-  destruct e as [x|b|segs|b| |vn vl|op a b|op a|es|a i|o f|c args t]; try reflexivity.
-  - destruct op; reflexivity.
-  - destruct c; reflexivity.
+  destruct e; reflexivity.
 Qed.
 
 Lemma exec_S P eps n t s :
